@@ -14,7 +14,7 @@ import (
 // Contract file: //@ lines in a comment-only Go file.
 
 type Clause struct {
-	When    Expr   // case specialisation: obligation generated from a run with this condition assumed (and folded) at entry
+	When    Expr // case specialisation: obligation generated from a run with this condition assumed (and folded) at entry
 	WhenSrc string
 	From    []string // derived clause: proved from these other ensures clauses alone (no code)
 	Label   string
@@ -42,7 +42,7 @@ type FuncContract struct {
 	Trusted     bool // contract assumed; body not verified
 	TrustReason string
 	Loops       map[int][]Clause
-	LoopEntry   map[int][]Clause // checked when the loop is entered only (not an invariant)
+	LoopEntry   map[int][]Clause    // checked when the loop is entered only (not an invariant)
 	CallAsserts map[string][]Clause // key "callee#k"
 	Crash       []Clause            // crash invariants: asserted after every durable write
 	Observe     []Clause            // named entry-state expressions reported in counterexample models
@@ -86,16 +86,16 @@ type UFDecl struct {
 }
 
 type Contracts struct {
-	Addressable []string // "T.f" declarations
-	Ghosts map[string]string // global ghost variables: name -> Go type
-	UFs    map[string]*UFDecl
-	Funcs  map[string]*FuncContract
-	Specs  map[string]*SpecFunc
-	Models map[string]*Model
-	Lemmas map[string]*Lemma
-	Axioms []*Axiom
-	Order  []string
-	Text   string
+	Addressable []string          // "T.f" declarations
+	Ghosts      map[string]string // global ghost variables: name -> Go type
+	UFs         map[string]*UFDecl
+	Funcs       map[string]*FuncContract
+	Specs       map[string]*SpecFunc
+	Models      map[string]*Model
+	Lemmas      map[string]*Lemma
+	Axioms      []*Axiom
+	Order       []string
+	Text        string
 }
 
 var headerKW = map[string]bool{"addressable": true, "ghostvar": true, "uf": true, "func": true, "interface": true, "extern": true, "model": true, "spec": true, "lemma": true, "axiom": true}
